@@ -39,9 +39,16 @@ def lower(v, memo=None):
         if issubclass(cls, tuple) and hasattr(cls, '_fields'):
             return cls(**{k: lower(x, memo) for k, x in v.fields.items()})
         r = object.__new__(cls)
+        import threading
+        if issubclass(cls, threading.Thread):
+            threading.Thread.__init__(r, daemon=True)
         memo[v.oid] = r
         for k, x in v.fields.items():
-            object.__setattr__(r, k, lower(x, memo))
+            val = lower(x, memo)
+            try:
+                object.__setattr__(r, k, val)
+            except Exception:
+                r.__dict__[k] = val
         return r
     if type(v).__name__ == 'SExt':
         from .ext import FakeSocket
@@ -254,8 +261,9 @@ def native_check(c, registry, args):
     if cc is not None and cc.inv is not None and not c.is_init and 'self' in args and c.assume_inv:
         if not cc.inv(args['self']):
             return None, {'skipped': 'class invariant false on input'}
-    old = types.SimpleNamespace(**copy.deepcopy({k: v for k, v in args.items()
-                                                  if not k.startswith('ghost_')}))
+    from .speclib import snapshot
+    old = types.SimpleNamespace(**snapshot({k: v for k, v in args.items()
+                                            if not k.startswith('ghost_')}))
     ns_old = dict(vars(old))
     ns_old['old'] = old
     ns['old'] = old
